@@ -154,7 +154,7 @@ class ModuleGen(object):
         have_init = False
         for j in range(rng.randint(0, 5)):
             mk = rng.choice(['m', 'static', 'cls', 'prop', 'amethod', 'nestedcls', 'setter', 'deleter', 'wrapped', 'init',
-                             'ctxmethod', 'setter_stacked', 'getter_again', 'rewrapped', 'private'])
+                             'ctxmethod', 'setter_stacked', 'getter_again', 'rewrapped', 'private', 'owrapped'])
             if mk == 'init':
                 if have_init:
                     mk = 'm'
@@ -186,6 +186,8 @@ class ModuleGen(object):
                 self.func('    ', 's%d' % j, '%s.s%d' % (cn, j), True, deco='@staticmethod')
             elif mk == 'cls':
                 self.func('    ', 'c%d' % j, '%s.c%d' % (cn, j), True, deco='@classmethod')
+            elif mk == 'owrapped':
+                self.func('    ', 'ow%d' % j, '%s.ow%d' % (cn, j), True, deco='@_odeco')
             elif mk == 'wrapped':
                 self.func('    ', 'w%d' % j, '%s.w%d' % (cn, j), True, deco='@_deco')
             elif mk == 'ctxmethod':
@@ -232,7 +234,11 @@ class ModuleGen(object):
         out = self.out
         out += ['import functools, os, contextlib', 'from os.path import join', 'from collections import OrderedDict', '',
                 'def _deco(f):', '    @functools.wraps(f)', '    def w(*a, **k):', '        return f(*a, **k)',
-                '    return w', '', 'def _cdeco(c):', '    return c', '', 'class _ns:', '    mark = staticmethod(lambda f: f)', '']
+                '    return w', '', 'def _cdeco(c):', '    return c', '', 'class _ns:', '    mark = staticmethod(lambda f: f)', '',
+                # a decorator in the idiom older than functools.wraps: name and docstring copied by hand (the wrapper keeps
+                # its own __qualname__)
+                'def _odeco(f):', '    def w(*a, **k):', '        return f(*a, **k)', '    w.__name__ = f.__name__',
+                '    w.__doc__ = f.__doc__', '    return w', '']
         head = []
         if rng.random() < 0.5:
             save = self.out
@@ -243,7 +249,7 @@ class ModuleGen(object):
         n = rng.randint(2, 7)
         for k in range(n):
             kind = rng.choice(['func', 'afunc', 'deco', 'class', 'class', 'if', 'try', 'main', 'with', 'adeco', 'ctxmgr', 'notmain', 'handler', 'matcharm', 'tryelse', 'bytesdoc',
-                              'forbody', 'subclass', 'rewrap'])
+                              'forbody', 'subclass', 'rewrap', 'odeco'])
             self.spec.features.add('top:' + kind)
             if kind == 'func':
                 self.func('', 'f%d' % k, 'f%d' % k, True)
@@ -257,6 +263,8 @@ class ModuleGen(object):
                 self.func('', 'af%d' % k, 'af%d' % k, True, is_async=True)
             elif kind == 'deco':
                 self.func('', 'd%d' % k, 'd%d' % k, True, deco='@_deco')
+            elif kind == 'odeco':
+                self.func('', 'od%d' % k, 'od%d' % k, True, deco='@_odeco')
             elif kind == 'ctxmgr':
                 self.func('', 'cm%d' % k, 'cm%d' % k, True, deco='@contextlib.contextmanager')
             elif kind == 'adeco':
